@@ -369,29 +369,50 @@ static pthread_barrier_t bar;
 
 static inline int64 fn(int64 a) { return a * 7 + 3; }
 
-// A harness slot holds a Future<int64>; slots 8..15 hold a Future<void> (no result conversion).
+// A harness slot holds a Future<int64>; slots 8..15 hold a Future<void> (no result conversion);
+// slots 56..63 hold a Future<String>: a result type with a destructor and heap storage (the result
+// slot is written by the worker: `result = b->call()`, and destroyed by ~Future<A> - after its join()).
+// The String result is the decimal text of fn(arg) behind a fixed prefix (always on the heap).
+enum { STR_LO = 56 };
 static Future<int64>* futs[MAXF];
 static Future<void>* vfuts[MAXF];
+static Future<String>* sfuts[MAXF];
 static inline bool is_void(int f) { return f >= 8 && f < 16; }
-static inline bool sl_aborting(int f) { return is_void(f) ? vfuts[f]->isAborting() : futs[f]->isAborting(); }
-static inline void sl_join(int f) { if(is_void(f)) vfuts[f]->join(); else futs[f]->join(); }
-static inline void sl_abort(int f) { if(is_void(f)) vfuts[f]->abort(); else futs[f]->abort(); }
+static inline bool is_str(int f) { return f >= STR_LO; }
+static inline bool sl_aborting(int f) { return is_void(f) ? vfuts[f]->isAborting() : is_str(f) ? sfuts[f]->isAborting() : futs[f]->isAborting(); }
+static inline void sl_join(int f) { if(is_void(f)) vfuts[f]->join(); else if(is_str(f)) sfuts[f]->join(); else futs[f]->join(); }
+static inline void sl_abort(int f) { if(is_void(f)) vfuts[f]->abort(); else if(is_str(f)) sfuts[f]->abort(); else futs[f]->abort(); }
 static inline char sl_state(int f)
 {
   if(is_void(f)) return vfuts[f]->isFinished() ? 'F' : vfuts[f]->isAborted() ? 'A' : (vfuts[f]->_state == Future<void>::runningState ? 'R' : 'I');
+  if(is_str(f)) return sfuts[f]->isFinished() ? 'F' : sfuts[f]->isAborted() ? 'A' : (sfuts[f]->future._state == Future<void>::runningState ? 'R' : 'I');
   return futs[f]->isFinished() ? 'F' : futs[f]->isAborted() ? 'A' : (futs[f]->future._state == Future<void>::runningState ? 'R' : 'I');
 }
 static void sl_new(int f)
 {
   if(is_void(f)) { vfuts[f] = new Future<void>; live_add(f, vfuts[f], sizeof(Future<void>)); }
+  else if(is_str(f)) { sfuts[f] = new Future<String>; live_add(f, sfuts[f], sizeof(Future<String>)); }
   else { futs[f] = new Future<int64>; live_add(f, futs[f], sizeof(Future<int64>)); }
 }
 static void sl_delete(int f)
 {
-  if(is_void(f)) { delete vfuts[f]; vfuts[f] = 0; } else { delete futs[f]; futs[f] = 0; }
+  if(is_void(f)) { delete vfuts[f]; vfuts[f] = 0; }
+  else if(is_str(f)) { delete sfuts[f]; sfuts[f] = 0; }
+  else { delete futs[f]; futs[f] = 0; }
   live_remove(f);
 }
+// the text a started function returns through a Future<String>, and its inverse (anything else reads as -888888888)
+static String str_of(int64 v) { return String("result-of-the-started-function:") + String::fromInt64(v); }
+static long long val_of(const String& s)
+{
+  String pre("result-of-the-started-function:");
+  if(s.length() <= pre.length() || !(s.substr(0, pre.length()) == pre)) return -888888888LL;
+  String num = s.substr(pre.length());
+  int64 v = num.toInt64();
+  return String::fromInt64(v) == num ? (long long)v : -888888888LL;
+}
 
+static volatile int g_nested_in_start = 0;   // worker threads inside the start() call of a started function (work >= 4)
 static int64 jobfn(CallRec* r, int64 arg);
 static int64 job_body(CallRec* r, int64 arg)
 {
@@ -405,8 +426,11 @@ static int64 job_body(CallRec* r, int64 arg)
   default:
     // work >= 4: the started function starts another future itself ("started from any threads")
     // and returns without waiting for it
-    if(r->work >= 4 && r->work - 4 < MAXF && r->child)
+    if(r->work >= 4 && r->work - 4 < STR_LO && r->child) {
+      __atomic_add_fetch(&g_nested_in_start, 1, __ATOMIC_SEQ_CST);
       futs[r->work - 4]->start(&jobfn, r->child, (int64)(arg + 1));
+      __atomic_sub_fetch(&g_nested_in_start, 1, __ATOMIC_SEQ_CST);
+    }
     break;
   }
   r->done_stamp = __atomic_add_fetch(&g_seq, 1, __ATOMIC_SEQ_CST);
@@ -438,9 +462,12 @@ static const jf0_t jf0_tab[16] = { jf0<0>, jf0<1>, jf0<2>, jf0<3>, jf0<4>, jf0<5
 static const vf0_t vf0_tab[16] = { vf0<0>, vf0<1>, vf0<2>, vf0<3>, vf0<4>, vf0<5>, vf0<6>, vf0<7>, vf0<8>, vf0<9>, vf0<10>, vf0<11>, vf0<12>, vf0<13>, vf0<14>, vf0<15> };
 
 enum { OBJ_MAGIC = 0x5eed5eed };
+struct Obj;
+static inline bool obj_is_slot(const Obj* o, int slot);
 struct Obj {
   long pad; int64 magic; CallRec* rec;
-  void chk(CallRec* r) { if(magic != OBJ_MAGIC) r->bad = 1; }
+  // the member function runs on the object given to start() (not on a copy): `this` is the slot's object
+  void chk(CallRec* r) { if(magic != OBJ_MAGIC || !obj_is_slot(this, r->slot)) r->bad = 1; }
   int64 m0() { chk(rec); return job_body(rec, rec->arg_in); }
   int64 m1(CallRec* r) { chk(r); return job_body(r, r->arg_in); }
   int64 m2(CallRec* r, int64 a) { chk(r); return job_body(r, a); }
@@ -451,8 +478,15 @@ struct Obj {
   void v2(CallRec* r, int64 a) { chk(r); job_body(r, a); }
   void v3(CallRec* r, int64 a, int64 b) { chk(r); EXTRA(r, a, b, 1); job_body(r, a); }
   void v4(CallRec* r, int64 a, int64 b, int64 c) { chk(r); EXTRA(r, a, b, 1); EXTRA(r, a, c, 2); job_body(r, a); }
+  // Future<String>: String parameters (by value and by const reference), arguments of another type than the parameter
+  String s2(CallRec* r, int64 a) { chk(r); return str_of(job_body(r, a)); }
+  String s3(CallRec* r, String tag, int64 a) { chk(r); if(!(tag == String::fromInt64(a))) r->bad = 1; return str_of(job_body(r, a)); }
 };
 static Obj objs[MAXF];
+static inline bool obj_is_slot(const Obj* o, int slot) { return slot >= 0 && slot < MAXF && o == &objs[slot]; }
+static String sjob(CallRec* r, int64 a) { return str_of(job_body(r, a)); }
+static String sf3(CallRec* r, const String& tag, int64 a) { if(!(tag == String::fromInt64(a))) r->bad = 1; return str_of(job_body(r, a)); }
+static String sf4(CallRec* r, String tag, int64 a, int64 b) { if(!(tag == String::fromInt64(a))) r->bad = 1; EXTRA(r, a, b, 1); return str_of(job_body(r, a)); }
 
 // start call r on slot f through the overload chosen by `variant`
 static void sl_start(int f, int variant, CallRec* r, int64 a)
@@ -465,6 +499,20 @@ static void sl_start(int f, int variant, CallRec* r, int64 a)
   if(variant == 10) ob.rec = r;
   if(variant == 0 && f < 16) cur0[f] = r;
   if(variant == 0 && f >= 16) variant = 2;
+  if(is_str(f)) {
+    // Future<String>: the arguments are copied into the call record as String / int (P) and converted to the
+    // parameter types const String& / String / int64 (D) when the worker makes the call
+    Future<String>& v = *sfuts[f];
+    String tag = String::fromInt64(a);
+    switch(variant) {
+    case 3: v.start(&sf3, r, tag, (int)a); break;
+    case 4: v.start(&sf4, r, tag, (int)a, (int)(a + 1)); break;
+    case 12: v.start(ob, &Obj::s2, r, (int)a); break;
+    case 13: v.start(ob, &Obj::s3, r, tag, (int)a); break;
+    default: v.start(&sjob, r, a); break;
+    }
+    return;
+  }
   if(is_void(f)) {
     Future<void>& v = *vfuts[f];
     switch(variant) {
@@ -508,8 +556,8 @@ static void on_alarm(int)
   char buf[512];
   int n;
   if(tp)
-    n = snprintf(buf, sizeof(buf), "%ld deadlock phase=%d queue.head=%lu queue.tail=%lu enq.state=%lu enq.flag=%d deq.state=%lu deq.flag=%d pushed=%lu processed=%lu threads=%lu contexts=%lu\n",
-                 g_case, g_phase, (unsigned long)tp->_queue._head, (unsigned long)tp->_queue._tail,
+    n = snprintf(buf, sizeof(buf), "%ld deadlock phase=%d capacity=%lu nested_in_start=%d queue.head=%lu queue.tail=%lu enq.state=%lu enq.flag=%d deq.state=%lu deq.flag=%d pushed=%lu processed=%lu threads=%lu contexts=%lu\n",
+                 g_case, g_phase, (unsigned long)tp->_queue._capacity, (int)g_nested_in_start, (unsigned long)tp->_queue._head, (unsigned long)tp->_queue._tail,
                  (unsigned long)tp->_enqueuedSignal._state, (int)tp->_enqueuedSignal._signal.signaled,
                  (unsigned long)tp->_dequeuedSignal._state, (int)tp->_dequeuedSignal._signal.signaled,
                  (unsigned long)tp->_pushedJobs, (unsigned long)tp->_processedJobs, (unsigned long)tp->_threadCount, (unsigned long)tp->_threads.size());
@@ -522,7 +570,7 @@ static void on_alarm(int)
 
 static void begin(long cno, vh::Tok& t)
 {
-  g_case = cno; g_phase = 0;
+  g_case = cno; g_phase = 0; g_nested_in_start = 0;
   signal(SIGALRM, on_alarm);
   nops = 0;
   cfg_min = 0; cfg_max = 3; cfg_q = 4; cfg_clients = 1; cfg_lazy = 0; g_clock_scale = 1;
@@ -629,8 +677,15 @@ static void op(long, long, vh::Tok& t)
   ++nops;
 }
 
-// same validity rule as FutureSpec.valid_script: a call that waits for abort() must have been
-// aborted before anything waits for it; a future belongs to the first client that names it
+// same validity rule as FutureSpec.valid_script: between the start of a call that waits for abort()
+// and the abort() of that future its owner only aborts, queries and pauses (no start, join, conversion
+// or destructor of any future: those can wait for the pool); a future belongs to the first client that names it
+static bool pending_of(const int* owner, const bool* act3, int client)
+{
+  for(int f = 0; f < MAXF; ++f) if(act3[f] && owner[f] == client) return true;
+  return false;
+}
+
 static bool valid()
 {
   int owner[MAXF]; bool act3[MAXF]; bool child[MAXF]; bool named[MAXF];
@@ -643,7 +698,7 @@ static bool valid()
     named[o.f] = true;
     if(o.kind == K_START && o.work >= 4) {
       int g = o.work - 4;
-      if(g < 16 || g >= MAXF || child[g]) return false;
+      if(g < 16 || g >= STR_LO || child[g]) return false;
       child[g] = true;
     }
   }
@@ -655,16 +710,11 @@ static bool valid()
     if(owner[o.f] < 0) owner[o.f] = o.client;
     if(owner[o.f] != o.client) return false;
     if(o.kind == K_START) {
-      if(act3[o.f]) return false;
-      if(o.work == 3) {
-        int pend = 0;
-        for(int f = 0; f < MAXF; ++f) if(act3[f]) ++pend;
-        if(o.client != 0 || pend >= 2) return false;
-      }
+      if(pending_of(owner, act3, o.client)) return false;
       act3[o.f] = (o.work == 3);
     }
     else if(o.kind == K_ABORT) act3[o.f] = false;
-    else if(o.kind == K_JOIN || o.kind == K_GET || o.kind == K_DESTROY) { if(act3[o.f]) return false; }
+    else if(o.kind == K_JOIN || o.kind == K_GET || o.kind == K_DESTROY) { if(pending_of(owner, act3, o.client)) return false; }
     if(o.kind == K_GET && is_void(o.f)) return false;     // a Future<void> has no result conversion
   }
   for(int f = 0; f < MAXF; ++f) if(act3[f]) return false;
@@ -702,7 +752,10 @@ static void* client(void* p)
       break; }
     case K_ABORT: sl_abort(o.f); o.n = serial[o.f]; break;
     case K_JOIN: sl_join(o.f); stamp_join(o); break;
-    case K_GET: { const int64& v = *futs[o.f]; stamp_join(o); o.res = v; break; }
+    case K_GET:
+      if(is_str(o.f)) { const String& v = *sfuts[o.f]; stamp_join(o); o.res = val_of(v); }
+      else { const int64& v = *futs[o.f]; stamp_join(o); o.res = v; }
+      break;
     case K_CHECK:
       o.n = serial[o.f];
       o.st = sl_state(o.f);
